@@ -172,7 +172,7 @@ theorem performInclude_first (env : Env) (rec : Rec) (cur : Option Nat) (disc ig
     performInclude env rec cur disc ign outer (missing ++ t :: more) tried st =
       if outer + INCLUDE_COST + st.frames.length > LIMIT then .error [.invalidOperation]
       else
-        match rec cur disc false (outer + INCLUDE_COST) T.layout
+        match rec cur disc false (outer + INCLUDE_COST) T.ae T.layout
             { st with blocks := prepare T.blocks, depth := fun _ => 0, loaded := [] } with
         | .error e => .error (.badInclude :: e)
         | .ok (o, st') =>
@@ -183,7 +183,7 @@ theorem performInclude_first (env : Env) (rec : Rec) (cur : Option Nat) (disc ig
     simp only [List.nil_append, performInclude, hT]
     split
     · rfl
-    · cases rec cur disc false (outer + INCLUDE_COST) T.layout
+    · cases rec cur disc false (outer + INCLUDE_COST) T.ae T.layout
         { st with blocks := prepare T.blocks, depth := fun _ => 0, loaded := [] } with
       | error e => rfl
       | ok r => rfl
@@ -274,7 +274,7 @@ theorem include_module (env : Env) (ctx : Frame) (f : Nat) (cur : Option Nat) (d
     ∃ o, performInclude env (evalImpl env ctx (f + 1)) cur disc false outer [t] false
         { st with frames := st.frames ++ [[]] } =
       .ok (o, { st with frames := st.frames ++ [assigns T.layout []] }) := by
-  obtain ⟨o, ho⟩ := simple_steps ⟨env, ctx, cur, disc, false, outer + INCLUDE_COST⟩ (evalImpl env ctx f)
+  obtain ⟨o, ho⟩ := simple_steps ⟨env, ctx, cur, disc, false, outer + INCLUDE_COST, T.ae⟩ (evalImpl env ctx f)
     T.layout hs
     { blocks := prepare T.blocks, depth := fun _ => 0, loaded := [], frames := st.frames ++ [[]] }
     st.frames [] rfl
@@ -298,22 +298,22 @@ theorem pushFails_false_of (outer : Nat) (fs : List Frame)
   simp only [pushFails, decide_eq_false_iff_not]; omega
 
 theorem importAs_step (env : Env) (ctx : Frame) (f : Nat) (cur : Option Nat) (d0 e0 : Bool) (outer : Nat)
-    (parent : Option (List Item)) (t v : Nat) (T : Template) (hT : env[t]? = some T)
+    (ae : AE) (parent : Option (List Item)) (t v : Nat) (T : Template) (hT : env[t]? = some T)
     (hs : T.layout.all Item.isAssign = true) (rest : List Item) (st : St)
     (hd : outer + INCLUDE_COST + (st.frames.length + 1) ≤ LIMIT) :
-    stepItems ⟨env, ctx, cur, d0, e0, outer⟩ (evalImpl env ctx (f + 1)) parent (.importAs t v :: rest) st =
-      stepItems ⟨env, ctx, cur, d0, e0, outer⟩ (evalImpl env ctx (f + 1)) parent rest
+    stepItems ⟨env, ctx, cur, d0, e0, outer, ae⟩ (evalImpl env ctx (f + 1)) parent (.importAs t v :: rest) st =
+      stepItems ⟨env, ctx, cur, d0, e0, outer, ae⟩ (evalImpl env ctx (f + 1)) parent rest
         { st with frames := store st.frames v (.module (dedupKeys (assigns T.layout []))) } := by
   obtain ⟨o, ho⟩ := include_module env ctx f cur false outer t T hT hs st hd
   simp only [stepItems, pushFails_false_of outer st.frames hd, Bool.false_eq_true, if_false, ho,
     topFrame_snoc, take_append_one, andThen_nil]
 
 theorem fromImport_step (env : Env) (ctx : Frame) (f : Nat) (cur : Option Nat) (d0 e0 : Bool) (outer : Nat)
-    (parent : Option (List Item)) (t name alias : Nat) (T : Template) (hT : env[t]? = some T)
+    (ae : AE) (parent : Option (List Item)) (t name alias : Nat) (T : Template) (hT : env[t]? = some T)
     (hs : T.layout.all Item.isAssign = true) (rest : List Item) (st : St)
     (hd : outer + INCLUDE_COST + (st.frames.length + 1) ≤ LIMIT) :
-    stepItems ⟨env, ctx, cur, d0, e0, outer⟩ (evalImpl env ctx (f + 1)) parent (.fromImport t name alias :: rest) st =
-      stepItems ⟨env, ctx, cur, d0, e0, outer⟩ (evalImpl env ctx (f + 1)) parent rest
+    stepItems ⟨env, ctx, cur, d0, e0, outer, ae⟩ (evalImpl env ctx (f + 1)) parent (.fromImport t name alias :: rest) st =
+      stepItems ⟨env, ctx, cur, d0, e0, outer, ae⟩ (evalImpl env ctx (f + 1)) parent rest
         { st with frames := store st.frames alias ((lookupVal name (assigns T.layout [])).getD .undef) } := by
   obtain ⟨o, ho⟩ := include_module env ctx f cur true outer t T hT hs st hd
   simp only [stepItems, pushFails_false_of outer st.frames hd, Bool.false_eq_true, if_false, ho,
@@ -371,14 +371,21 @@ theorem store_length (fs : List Frame) (v : Nat) (x : Val) : (store fs v x).leng
       have := congrArg List.length h; simpa using this
     simp [this]
 
-theorem varItem_fine (ctx : Frame) (q : Bool) (it : Item) (fs : List Frame) (r : Except Err (List String × List Frame))
-    (h : varItem ctx q it fs = some r) : Fine fs.length r := by
+theorem varItem_fine (ctx : Frame) (q : Bool) (ae : AE) (it : Item) (fs : List Frame)
+    (r : Except Err (List String × List Frame))
+    (h : varItem ctx q ae it fs = some r) : Fine fs.length r := by
   unfold varItem at h
   cases it <;> simp only [] at h <;> try (cases h)
   case text s => exact fine_ok rfl
   case required => exact fine_ok rfl
   case emitVar v =>
-    split at h <;> cases h <;> first | exact fine_ok rfl | exact fine_error (by simp)
+    split at h
+    · cases h; exact fine_ok rfl
+    · cases h; exact fine_ok rfl
+    · split at h <;> cases h <;> exact fine_ok rfl
+    · cases h; exact fine_ok rfl
+    · cases h; exact fine_ok rfl
+    · cases h; exact fine_error (by simp)
   case setVar v s => exact fine_ok (store_length _ _ _)
   case defMacro v s => exact fine_ok (store_length _ _ _)
   case emitAttr v a =>
@@ -393,23 +400,23 @@ theorem varItem_fine (ctx : Frame) (q : Bool) (it : Item) (fs : List Frame) (r :
 /-- the callbacks one level down are `Fine` wherever the guards of `specItems` let them be called
     from a statement list running at `outer` with `n` frames -/
 structure CbFine (cbs : SpecCbs) (outer n : Nat) : Prop where
-  body : ∀ D m k disc fs1, fs1.length = n + 1 → outer + (n + 1) ≤ LIMIT →
-    Fine (n + 1) (cbs.body D m k disc outer fs1)
-  list : ∀ D cur disc ext items fs1, fs1.length = n + 1 → outer + (n + 1) ≤ LIMIT →
-    Fine (n + 1) (cbs.list D cur disc ext outer items fs1)
-  mac : ∀ D items fs1, fs1.length = 2 → outer + n + MACRO_COST + 2 ≤ LIMIT →
-    Fine 2 (cbs.list D none false false (outer + n + MACRO_COST) items fs1)
-  chain : ∀ t disc layout fs1, (fs1.length = n ∨ fs1.length = n + 1) →
+  body : ∀ D m k disc ae fs1, fs1.length = n + 1 → outer + (n + 1) ≤ LIMIT →
+    Fine (n + 1) (cbs.body D m k disc outer ae fs1)
+  list : ∀ D cur disc ext ae items fs1, fs1.length = n + 1 → outer + (n + 1) ≤ LIMIT →
+    Fine (n + 1) (cbs.list D cur disc ext outer ae items fs1)
+  mac : ∀ D ae items fs1, fs1.length = 2 → outer + n + MACRO_COST + 2 ≤ LIMIT →
+    Fine 2 (cbs.list D none false false (outer + n + MACRO_COST) ae items fs1)
+  chain : ∀ t disc ae layout fs1, (fs1.length = n ∨ fs1.length = n + 1) →
     outer + INCLUDE_COST + fs1.length ≤ LIMIT →
-    Fine fs1.length (cbs.chain [t] disc (outer + INCLUDE_COST) layout fs1)
+    Fine fs1.length (cbs.chain [t] disc (outer + INCLUDE_COST) ae layout fs1)
 
 theorem pushFails_false_iff (outer : Nat) (fs : List Frame) :
     pushFails outer fs = false ↔ outer + (fs.length + 1) ≤ LIMIT := by
   simp only [pushFails, decide_eq_false_iff_not]; omega
 
 theorem specBlock_fine {cbs : SpecCbs} {outer n : Nat} (h : CbFine cbs outer n)
-    (D : Nat → List (List Item)) (disc : Bool) (m : Nat) (fs : List Frame) (hfs : fs.length = n) :
-    Fine n (specBlock cbs D disc outer m fs) := by
+    (D : Nat → List (List Item)) (disc : Bool) (ae : AE) (m : Nat) (fs : List Frame) (hfs : fs.length = n) :
+    Fine n (specBlock cbs D disc outer ae m fs) := by
   unfold specBlock
   cases D m with
   | nil => exact fine_error (by simp)
@@ -423,11 +430,11 @@ theorem specBlock_fine {cbs : SpecCbs} {outer n : Nat} (h : CbFine cbs outer n)
         simp only [Bool.false_eq_true, if_false]
         have hd := (pushFails_false_iff outer fs).1 hpf
         rw [hfs] at hd ⊢
-        exact fine_take _ (h.body D m 0 disc (fs ++ [[]]) (by simp [hfs]) hd)
+        exact fine_take _ (h.body D m 0 disc ae (fs ++ [[]]) (by simp [hfs]) hd)
 
 theorem specSuper_fine {cbs : SpecCbs} {outer n : Nat} (h : CbFine cbs outer n)
-    (D : Nat → List (List Item)) (cur : Option (Nat × Nat)) (disc : Bool) (fs : List Frame)
-    (hfs : fs.length = n) : Fine n (specSuper cbs D cur disc outer fs) := by
+    (D : Nat → List (List Item)) (cur : Option (Nat × Nat)) (disc : Bool) (ae : AE) (fs : List Frame)
+    (hfs : fs.length = n) : Fine n (specSuper cbs D cur disc outer ae fs) := by
   unfold specSuper
   cases cur with
   | none => exact fine_error (by simp)
@@ -441,8 +448,8 @@ theorem specSuper_fine {cbs : SpecCbs} {outer n : Nat} (h : CbFine cbs outer n)
         simp only [Bool.false_eq_true, if_false]
         have hd := (pushFails_false_iff outer fs).1 hpf
         rw [hfs] at hd ⊢
-        have hb := h.body D b (k + 1) disc (fs ++ [[]]) (by simp [hfs]) hd
-        cases hr : cbs.body D b (k + 1) disc outer (fs ++ [[]]) with
+        have hb := h.body D b (k + 1) disc ae (fs ++ [[]]) (by simp [hfs]) hd
+        cases hr : cbs.body D b (k + 1) disc outer ae (fs ++ [[]]) with
         | error e => exact fine_error (by simp [hb.1 e hr])
         | ok q => obtain ⟨o, fs'⟩ := q; exact fine_ok (by simp [hb.2 o fs' hr])
     · exact fine_error (by simp)
@@ -466,8 +473,8 @@ theorem specInclude_fine {cbs : SpecCbs} {outer n : Nat} (h : CbFine cbs outer n
       split
       · exact fine_error (by simp)
       · rename_i hd
-        have hc := h.chain t disc T.layout fs hfs (by omega)
-        cases hr : cbs.chain [t] disc (outer + INCLUDE_COST) T.layout fs with
+        have hc := h.chain t disc T.ae T.layout fs hfs (by omega)
+        cases hr : cbs.chain [t] disc (outer + INCLUDE_COST) T.ae T.layout fs with
         | error e => exact fine_error (by simp [hc.1 e hr])
         | ok q => obtain ⟨o, fs'⟩ := q; exact fine_ok (by simp [hc.2 o fs' hr])
 
@@ -502,17 +509,20 @@ theorem specLoop_fine (run : List Frame → SRes) (v : Nat) (vals : List String)
   exact key _ (fine_ok hfs)
 
 theorem specItems_fine (env : Env) (ctx : Frame) {cbs : SpecCbs} {outer n : Nat} (h : CbFine cbs outer n)
-    (D : Nat → List (List Item)) (cur : Option (Nat × Nat)) (disc ext : Bool) (items : List Item)
+    (D : Nat → List (List Item)) (cur : Option (Nat × Nat)) (disc ext : Bool) (ae : AE) (items : List Item)
+    (hsame : ∀ m body, Item.autoesc m body ∈ items → body.any isAutoesc = false →
+      ∀ fs1 : List Frame, fs1.length = n → Fine n (cbs.list D cur disc ext outer m body fs1))
     (fs : List Frame) (hfs : fs.length = n) :
-    Fine n (specItems env ctx cbs D cur disc ext outer items fs) := by
+    Fine n (specItems env ctx cbs D cur disc ext outer ae items fs) := by
   induction items generalizing fs with
   | nil => exact fine_ok hfs
   | cons it rest ih =>
+    have ih := ih (fun m body hm hb => hsame m body (List.mem_cons_of_mem _ hm) hb)
     have hcont : ∀ r : SRes, Fine n r →
         Fine n (match r with
           | .error e => .error e
           | .ok (o, fs') =>
-            match specItems env ctx cbs D cur disc ext outer rest fs' with
+            match specItems env ctx cbs D cur disc ext outer ae rest fs' with
             | .error e => .error e
             | .ok (o', fs'') => .ok (o ++ o', fs'')) :=
       fun r hr => fine_cont r _ hr (fun fs' hfs' => ih fs' hfs')
@@ -521,14 +531,14 @@ theorem specItems_fine (env : Env) (ctx : Frame) {cbs : SpecCbs} {outer n : Nat}
       simp only [specItems]
       split
       · exact hcont _ (fine_ok hfs)
-      · exact hcont _ (specBlock_fine h D disc m fs hfs)
+      · exact hcont _ (specBlock_fine h D disc ae m fs hfs)
     | super =>
       simp only [specItems]
-      exact hcont _ (specSuper_fine h D cur disc fs hfs)
+      exact hcont _ (specSuper_fine h D cur disc ae fs hfs)
     | setSuper v =>
       simp only [specItems]
-      have hs := specSuper_fine h D cur false fs hfs
-      cases hr : specSuper cbs D cur false outer fs with
+      have hs := specSuper_fine h D cur false ae fs hfs
+      cases hr : specSuper cbs D cur false outer ae fs with
       | error e => exact fine_error (hs.1 e hr)
       | ok q =>
         obtain ⟨o, fs'⟩ := q
@@ -537,8 +547,8 @@ theorem specItems_fine (env : Env) (ctx : Frame) {cbs : SpecCbs} {outer n : Nat}
       simp only [specItems]
       split
       · exact hcont _ (fine_ok (by rw [store_length]; exact hfs))
-      · have hs := specBlock_fine h D false m fs hfs
-        cases hr : specBlock cbs D false outer m fs with
+      · have hs := specBlock_fine h D false ae m fs hfs
+        cases hr : specBlock cbs D false outer ae m fs with
         | error e => exact fine_error (hs.1 e hr)
         | ok q =>
           obtain ⟨o, fs'⟩ := q
@@ -589,10 +599,10 @@ theorem specItems_fine (env : Env) (ctx : Frame) {cbs : SpecCbs} {outer n : Nat}
           simp only [Bool.false_eq_true, if_false]
           have hd := (pushFails_false_iff outer fs).1 hpf
           rw [hfs] at hd
-          have hl := specLoop_fine (cbs.list D cur disc ext outer body) v vals n
-            (fun fs1 h1 => h.list D cur disc ext body fs1 h1 hd) (fs ++ [[]]) (by simp [hfs])
+          have hl := specLoop_fine (cbs.list D cur disc ext outer ae body) v vals n
+            (fun fs1 h1 => h.list D cur disc ext ae body fs1 h1 hd) (fs ++ [[]]) (by simp [hfs])
           rw [hfs]
-          cases hr : specLoop (cbs.list D cur disc ext outer body) v vals n (fs ++ [[]]) with
+          cases hr : specLoop (cbs.list D cur disc ext outer ae body) v vals n (fs ++ [[]]) with
           | error e => exact fine_error (hl.1 e hr)
           | ok q =>
             obtain ⟨o, s⟩ := q
@@ -605,89 +615,98 @@ theorem specItems_fine (env : Env) (ctx : Frame) {cbs : SpecCbs} {outer n : Nat}
         · exact fine_error (by simp)
         · rename_i hd
           rw [store_length, hfs] at hd
-          have hm := h.mac D body [[], [(arg, Val.str val)]] rfl (by omega)
+          have hm := h.mac D ae body [[], [(arg, Val.str val)]] rfl (by omega)
           rw [store_length, hfs]
-          cases hr : cbs.list D none false false (outer + n + MACRO_COST) body [[], [(arg, Val.str val)]] with
+          cases hr : cbs.list D none false false (outer + n + MACRO_COST) ae body [[], [(arg, Val.str val)]] with
           | error e => exact fine_error (hm.1 e hr)
           | ok q =>
             obtain ⟨o, s⟩ := q
             exact hcont _ (fine_ok (by rw [store_length]; exact hfs))
+    | autoesc m body =>
+      simp only [specItems]
+      cases hx : (body.any isExtends || body.any isAutoesc) with
+      | true => simp only [if_true]; exact fine_error (by simp)
+      | false =>
+        simp only [Bool.false_eq_true, if_false]
+        have hb : body.any isAutoesc = false := by
+          cases h1 : body.any isAutoesc <;> simp_all
+        exact hcont _ (hsame m body (by simp) hb fs hfs)
     | text s =>
       simp only [specItems]
-      cases hv : varItem ctx disc _ fs with
+      cases hv : varItem ctx disc ae _ fs with
       | none => exact fine_error (by simp)
       | some r =>
-        have hf := varItem_fine ctx disc _ fs r hv
+        have hf := varItem_fine ctx disc ae _ fs r hv
         rw [hfs] at hf
         cases r with
         | error e => exact fine_error (hf.1 e rfl)
         | ok q => obtain ⟨o, fs'⟩ := q; exact hcont _ hf
     | emitVar v =>
       simp only [specItems]
-      cases hv : varItem ctx disc _ fs with
+      cases hv : varItem ctx disc ae _ fs with
       | none => exact fine_error (by simp)
       | some r =>
-        have hf := varItem_fine ctx disc _ fs r hv
+        have hf := varItem_fine ctx disc ae _ fs r hv
         rw [hfs] at hf
         cases r with
         | error e => exact fine_error (hf.1 e rfl)
         | ok q => obtain ⟨o, fs'⟩ := q; exact hcont _ hf
     | setVar v s =>
       simp only [specItems]
-      cases hv : varItem ctx disc _ fs with
+      cases hv : varItem ctx disc ae _ fs with
       | none => exact fine_error (by simp)
       | some r =>
-        have hf := varItem_fine ctx disc _ fs r hv
+        have hf := varItem_fine ctx disc ae _ fs r hv
         rw [hfs] at hf
         cases r with
         | error e => exact fine_error (hf.1 e rfl)
         | ok q => obtain ⟨o, fs'⟩ := q; exact hcont _ hf
     | defMacro v s =>
       simp only [specItems]
-      cases hv : varItem ctx disc _ fs with
+      cases hv : varItem ctx disc ae _ fs with
       | none => exact fine_error (by simp)
       | some r =>
-        have hf := varItem_fine ctx disc _ fs r hv
+        have hf := varItem_fine ctx disc ae _ fs r hv
         rw [hfs] at hf
         cases r with
         | error e => exact fine_error (hf.1 e rfl)
         | ok q => obtain ⟨o, fs'⟩ := q; exact hcont _ hf
     | emitAttr v a =>
       simp only [specItems]
-      cases hv : varItem ctx disc _ fs with
+      cases hv : varItem ctx disc ae _ fs with
       | none => exact fine_error (by simp)
       | some r =>
-        have hf := varItem_fine ctx disc _ fs r hv
+        have hf := varItem_fine ctx disc ae _ fs r hv
         rw [hfs] at hf
         cases r with
         | error e => exact fine_error (hf.1 e rfl)
         | ok q => obtain ⟨o, fs'⟩ := q; exact hcont _ hf
     | emitKeys v =>
       simp only [specItems]
-      cases hv : varItem ctx disc _ fs with
+      cases hv : varItem ctx disc ae _ fs with
       | none => exact fine_error (by simp)
       | some r =>
-        have hf := varItem_fine ctx disc _ fs r hv
+        have hf := varItem_fine ctx disc ae _ fs r hv
         rw [hfs] at hf
         cases r with
         | error e => exact fine_error (hf.1 e rfl)
         | ok q => obtain ⟨o, fs'⟩ := q; exact hcont _ hf
     | callVar v =>
       simp only [specItems]
-      cases hv : varItem ctx disc _ fs with
+      cases hv : varItem ctx disc ae _ fs with
       | none => exact fine_error (by simp)
       | some r =>
-        have hf := varItem_fine ctx disc _ fs r hv
+        have hf := varItem_fine ctx disc ae _ fs r hv
         rw [hfs] at hf
         cases r with
         | error e => exact fine_error (hf.1 e rfl)
         | ok q => obtain ⟨o, fs'⟩ := q; exact hcont _ hf
     | required =>
       simp only [specItems]
-      cases hv : varItem ctx disc _ fs with
+      cases hv : varItem ctx disc ae _ fs with
       | none => exact fine_error (by simp)
       | some r =>
-        have hf := varItem_fine ctx disc _ fs r hv
+        have hf := varItem_fine ctx disc ae _ fs r hv
         rw [hfs] at hf
         cases r with
         | error e => exact fine_error (hf.1 e rfl)
@@ -698,9 +717,9 @@ theorem specItems_fine (env : Env) (ctx : Frame) {cbs : SpecCbs} {outer n : Nat}
 theorem INCLUDE_COST_pos : 1 ≤ INCLUDE_COST := by decide
 
 /-- fuel that suffices for everything nested below depth `d` -/
-def W (E d : Nat) : Nat := (LIMIT + 1 - d) * (E + 2)
+def W (E d : Nat) : Nat := (LIMIT + 1 - d) * (E + 3)
 
-theorem W_succ (E d : Nat) (h : d ≤ LIMIT) : W E d = W E (d + 1) + (E + 2) := by
+theorem W_succ (E d : Nat) (h : d ≤ LIMIT) : W E d = W E (d + 1) + (E + 3) := by
   unfold W
   have : LIMIT + 1 - d = (LIMIT + 1 - (d + 1)) + 1 := by omega
   rw [this, Nat.add_mul, Nat.one_mul]
@@ -709,78 +728,109 @@ theorem W_mono (E d d' : Nat) (h : d ≤ d') : W E d' ≤ W E d := by
   unfold W
   exact Nat.mul_le_mul_right _ (by omega)
 
+theorem W_pos (E d : Nat) (h : d ≤ LIMIT) : 1 ≤ W E d := by
+  rw [W_succ E d h]; omega
+
 /-- with `f` levels of fuel, nothing that starts at a depth the fuel covers runs out of fuel,
     and every successful run returns as many frames as it was given -/
 structure Term (env : Env) (ctx : Frame) (f : Nat) : Prop where
-  list : ∀ D cur disc ext outer items (fs : List Frame), outer + fs.length ≤ LIMIT →
+  list : ∀ D cur disc ext outer ae items (fs : List Frame), outer + fs.length ≤ LIMIT →
     W env.length (outer + fs.length) ≤ f →
-    Fine fs.length ((specAll env ctx f).list D cur disc ext outer items fs)
-  body : ∀ D n k disc outer (fs : List Frame), outer + fs.length ≤ LIMIT →
+    Fine fs.length ((specAll env ctx f).list D cur disc ext outer ae items fs)
+  /-- a list without `autoescape` blocks directly in it (the body of such a block) -/
+  flat : ∀ D cur disc ext outer ae (items : List Item) (fs : List Frame), items.any isAutoesc = false →
+    outer + fs.length ≤ LIMIT → W env.length (outer + fs.length + 1) + 1 ≤ f →
+    Fine fs.length ((specAll env ctx f).list D cur disc ext outer ae items fs)
+  body : ∀ D n k disc outer ae (fs : List Frame), outer + fs.length ≤ LIMIT →
     W env.length (outer + fs.length) ≤ f →
-    Fine fs.length ((specAll env ctx f).body D n k disc outer fs)
-  chain : ∀ (chain : List Nat) disc outer layout (fs : List Frame), chain ≠ [] → chain.tail.Nodup →
+    Fine fs.length ((specAll env ctx f).body D n k disc outer ae fs)
+  chain : ∀ (chain : List Nat) disc outer ae layout (fs : List Frame), chain ≠ [] → chain.tail.Nodup →
     (∀ x ∈ chain.tail, x < env.length) → outer + fs.length ≤ LIMIT →
-    W env.length (outer + fs.length + 1) + (env.length - chain.tail.length) + 1 ≤ f →
-    Fine fs.length ((specAll env ctx f).chain chain disc outer layout fs)
+    W env.length (outer + fs.length + 1) + (env.length - chain.tail.length) + 2 ≤ f →
+    Fine fs.length ((specAll env ctx f).chain chain disc outer ae layout fs)
 
 theorem cbfine_of_term {env : Env} {ctx : Frame} {f : Nat} (ht : Term env ctx f) (outer n : Nat)
     (hw : W env.length (outer + n + 1) ≤ f) :
     CbFine (specAll env ctx f) outer n := by
   refine ⟨?_, ?_, ?_, ?_⟩
-  · intro D m k disc fs1 h1 hd
-    have := ht.body D m k disc outer fs1 (by omega) (by rw [h1]; exact hw)
+  · intro D m k disc ae fs1 h1 hd
+    have := ht.body D m k disc outer ae fs1 (by omega) (by rw [h1]; exact hw)
     rwa [h1] at this
-  · intro D cur disc ext items fs1 h1 hd
-    have := ht.list D cur disc ext outer items fs1 (by omega) (by rw [h1]; exact hw)
+  · intro D cur disc ext ae items fs1 h1 hd
+    have := ht.list D cur disc ext outer ae items fs1 (by omega) (by rw [h1]; exact hw)
     rwa [h1] at this
-  · intro D items fs1 h1 hd
-    have := ht.list D none false false (outer + n + MACRO_COST) items fs1 (by omega)
+  · intro D ae items fs1 h1 hd
+    have := ht.list D none false false (outer + n + MACRO_COST) ae items fs1 (by omega)
       (Nat.le_trans (W_mono _ _ _ (by omega)) hw)
     rwa [h1] at this
-  · intro t disc layout fs1 h1 hd
+  · intro t disc ae layout fs1 h1 hd
     have hpos := INCLUDE_COST_pos
-    apply ht.chain [t] disc (outer + INCLUDE_COST) layout fs1 (by simp) (by simp) (by simp) hd
+    apply ht.chain [t] disc (outer + INCLUDE_COST) ae layout fs1 (by simp) (by simp) (by simp) hd
     have h2 : outer + n + 1 ≤ LIMIT := by omega
     have h3 := W_succ env.length (outer + n + 1) h2
     have h4 := W_mono env.length (outer + n + 1 + 1) (outer + INCLUDE_COST + fs1.length + 1) (by omega)
     simp only [List.tail_cons, List.length_nil, Nat.sub_zero]
     omega
 
-theorem W_pos (E d : Nat) (h : d ≤ LIMIT) : 1 ≤ W E d := by
-  rw [W_succ E d h]; omega
-
 theorem term_zero (env : Env) (ctx : Frame) : Term env ctx 0 := by
-  refine ⟨?_, ?_, ?_⟩
-  · intro D cur disc ext outer items fs hd hw
+  refine ⟨?_, ?_, ?_, ?_⟩
+  · intro D cur disc ext outer ae items fs hd hw
     have := W_pos env.length _ hd; omega
-  · intro D n k disc outer fs hd hw
+  · intro D cur disc ext outer ae items fs _ hd hw
+    omega
+  · intro D n k disc outer ae fs hd hw
     have := W_pos env.length _ hd; omega
-  · intro chain disc outer layout fs _ _ _ hd hw
+  · intro chain disc outer ae layout fs _ _ _ hd hw
     omega
 
 theorem term_succ (env : Env) (ctx : Frame) (f : Nat) (ht : Term env ctx f) : Term env ctx (f + 1) := by
-  refine ⟨?_, ?_, ?_⟩
-  · intro D cur disc ext outer items fs hd hw
+  have hsame : ∀ (outer : Nat) (fs : List Frame), outer + fs.length ≤ LIMIT →
+      W env.length (outer + fs.length + 1) + 1 ≤ f →
+      ∀ D cur disc ext (items : List Item) m body, Item.autoesc m body ∈ items → body.any isAutoesc = false →
+      ∀ fs1 : List Frame, fs1.length = fs.length →
+        Fine fs.length ((specAll env ctx f).list D cur disc ext outer m body fs1) := by
+    intro outer fs hd hw D cur disc ext items m body _ hb fs1 h1
+    have := ht.flat D cur disc ext outer m body fs1 hb (by omega) (by rw [h1]; exact hw)
+    rwa [h1] at this
+  refine ⟨?_, ?_, ?_, ?_⟩
+  · intro D cur disc ext outer ae items fs hd hw
     have h1 := W_succ env.length _ hd
-    exact specItems_fine env ctx (cbfine_of_term ht outer fs.length (by omega)) D cur disc ext items fs rfl
-  · intro D n k disc outer fs hd hw
+    exact specItems_fine env ctx (cbfine_of_term ht outer fs.length (by omega)) D cur disc ext ae items
+      (hsame outer fs hd (by omega) D cur disc ext items) fs rfl
+  · intro D cur disc ext outer ae items fs hflat hd hw
+    exact specItems_fine env ctx (cbfine_of_term ht outer fs.length (by omega)) D cur disc ext ae items
+      (by
+        intro m body hm _
+        have : items.any isAutoesc = true := List.any_eq_true.2 ⟨_, hm, rfl⟩
+        rw [hflat] at this; cases this) fs rfl
+  · intro D n k disc outer ae fs hd hw
     have h1 := W_succ env.length _ hd
     simp only [specAll]
     cases (D n)[k]? with
     | none => exact fine_error (by simp)
     | some b =>
-      exact specItems_fine env ctx (cbfine_of_term ht outer fs.length (by omega)) D _ disc false b fs rfl
-  · intro chain disc outer layout fs hne hnd hlt hd hw
+      exact specItems_fine env ctx (cbfine_of_term ht outer fs.length (by omega)) D _ disc false ae b
+        (hsame outer fs hd (by omega) D _ disc false b) fs rfl
+  · intro chain disc outer ae layout fs hne hnd hlt hd hw
     have hcb : ∀ fs' : List Frame, fs'.length = fs.length → CbFine (specAll env ctx f) outer fs'.length := by
       intro fs' h'; rw [h']; exact cbfine_of_term ht outer fs.length (by omega)
+    have hsm : ∀ (fs' : List Frame), fs'.length = fs.length → ∀ D cur disc ext (items : List Item) m body,
+        Item.autoesc m body ∈ items → body.any isAutoesc = false →
+        ∀ fs1 : List Frame, fs1.length = fs'.length →
+          Fine fs'.length ((specAll env ctx f).list D cur disc ext outer m body fs1) := by
+      intro fs' h'
+      exact hsame outer fs' (by omega) (by rw [h']; omega)
     simp only [specAll, specChain]
     cases hs : splitExtends layout with
-    | none => exact specItems_fine env ctx (hcb fs rfl) _ none disc false layout fs rfl
+    | none =>
+      exact specItems_fine env ctx (hcb fs rfl) _ none disc false ae layout
+        (hsm fs rfl _ none disc false layout) fs rfl
     | some r =>
       obtain ⟨pre, t, post⟩ := r
       simp only []
-      have hpre := specItems_fine env ctx (hcb fs rfl) (defs env chain) none disc false pre fs rfl
-      cases hr1 : specItems env ctx (specAll env ctx f) (defs env chain) none disc false outer pre fs with
+      have hpre := specItems_fine env ctx (hcb fs rfl) (defs env chain) none disc false ae pre
+        (hsm fs rfl _ none disc false pre) fs rfl
+      cases hr1 : specItems env ctx (specAll env ctx f) (defs env chain) none disc false outer ae pre fs with
       | error e => exact fine_error (hpre.1 e hr1)
       | ok q1 =>
         obtain ⟨o, fs1⟩ := q1
@@ -793,8 +843,9 @@ theorem term_succ (env : Env) (ctx : Frame) (f : Nat) (ht : Term env ctx f) : Te
           | none => exact fine_error (by simp)
           | some T =>
             simp only []
-            have hpost := specItems_fine env ctx (hcb fs1 hl1) (defs env (chain ++ [t])) none true true post fs1 rfl
-            cases hr2 : specItems env ctx (specAll env ctx f) (defs env (chain ++ [t])) none true true outer post fs1 with
+            have hpost := specItems_fine env ctx (hcb fs1 hl1) (defs env (chain ++ [t])) none true true ae post
+              (hsm fs1 hl1 _ none true true post) fs1 rfl
+            cases hr2 : specItems env ctx (specAll env ctx f) (defs env (chain ++ [t])) none true true outer ae post fs1 with
             | error e => exact fine_error (hpost.1 e hr2)
             | ok q2 =>
               obtain ⟨o2, fs2⟩ := q2
@@ -812,7 +863,7 @@ theorem term_succ (env : Env) (ctx : Frame) (f : Nat) (ht : Term env ctx f) : Te
                 cases chain with
                 | nil => exact absurd rfl hne
                 | cons c cs => rfl
-              have hc := ht.chain (chain ++ [t]) disc outer T.layout fs2 (by simp)
+              have hc := ht.chain (chain ++ [t]) disc outer ae T.layout fs2 (by simp)
                 (by rw [htail]; exact List.nodup_append.2 ⟨hnd, by simp, by
                   intro a ha b hb; simp at hb; subst hb; intro e; exact hmem (e ▸ ha)⟩)
                 (by rw [htail]; intro x hx'; rcases List.mem_append.1 hx' with h | h
@@ -820,7 +871,7 @@ theorem term_succ (env : Env) (ctx : Frame) (f : Nat) (ht : Term env ctx f) : Te
                     · simp at h; omega)
                 (by omega)
                 (by rw [htail, List.length_append, List.length_singleton, hl2, hl1]; omega)
-              cases hr3 : (specAll env ctx f).chain (chain ++ [t]) disc outer T.layout fs2 with
+              cases hr3 : (specAll env ctx f).chain (chain ++ [t]) disc outer ae T.layout fs2 with
               | error e => exact fine_error (hc.1 e hr3)
               | ok q3 =>
                 obtain ⟨o3, fs3⟩ := q3
@@ -860,17 +911,17 @@ theorem extendsAfterText_split (layout : List Item) (h : extendsAfterText layout
     | _ => simp [extendsAfterText] at h
 
 theorem specItems_texts (env : Env) (ctx : Frame) (cbs : SpecCbs) (D : Nat → List (List Item))
-    (cur : Option (Nat × Nat)) (disc ext : Bool) (outer : Nat) (pre more : List Item)
+    (cur : Option (Nat × Nat)) (disc ext : Bool) (outer : Nat) (ae : AE) (pre more : List Item)
     (h : pre.all Item.isText = true) (fs : List Frame) :
-    ∃ o, specItems env ctx cbs D cur disc ext outer (pre ++ more) fs =
-      match specItems env ctx cbs D cur disc ext outer more fs with
+    ∃ o, specItems env ctx cbs D cur disc ext outer ae (pre ++ more) fs =
+      match specItems env ctx cbs D cur disc ext outer ae more fs with
       | .error e => .error e
       | .ok (o', fs') => .ok (o ++ o', fs') := by
   induction pre with
   | nil =>
     refine ⟨[], ?_⟩
     simp only [List.nil_append]
-    cases specItems env ctx cbs D cur disc ext outer more fs with
+    cases specItems env ctx cbs D cur disc ext outer ae more fs with
     | error e => rfl
     | ok r => rfl
   | cons it rest ih =>
@@ -880,14 +931,14 @@ theorem specItems_texts (env : Env) (ctx : Frame) (cbs : SpecCbs) (D : Nat → L
     | text s =>
       refine ⟨(if disc then [] else [s]) ++ o, ?_⟩
       simp only [List.cons_append, specItems, varItem, ho]
-      cases specItems env ctx cbs D cur disc ext outer more fs with
+      cases specItems env ctx cbs D cur disc ext outer ae more fs with
       | error e => rfl
       | ok r => obtain ⟨o', fs'⟩ := r; simp
     | _ => simp [Item.isText] at h
 
 theorem specItems_post (env : Env) (ctx : Frame) (cbs : SpecCbs) (D : Nat → List (List Item))
-    (outer : Nat) (post : List Item) (h : post.all Item.isPost = true) (fs : List Frame) :
-    specItems env ctx cbs D none true true outer post fs =
+    (outer : Nat) (ae : AE) (post : List Item) (h : post.all Item.isPost = true) (fs : List Frame) :
+    specItems env ctx cbs D none true true outer ae post fs =
       if hasExecExtends post then .error [.invalidOperation] else .ok ([], fs) := by
   induction post with
   | nil => simp [specItems, hasExecExtends]
@@ -917,17 +968,17 @@ theorem specItems_post (env : Env) (ctx : Frame) (cbs : SpecCbs) (D : Nat → Li
     template activations -/
 theorem cycle_detected_spec (env : Env) (ctx : Frame)
     (hall : ∀ T ∈ env, extendsAfterText T.layout = true) :
-    ∀ d f chain disc outer layout fs, chain ≠ [] → chain.tail.Nodup → (∀ x ∈ chain.tail, x < env.length) →
+    ∀ d f chain disc outer ae layout fs, chain ≠ [] → chain.tail.Nodup → (∀ x ∈ chain.tail, x < env.length) →
       env.length - chain.tail.length ≤ d → d + 1 ≤ f → extendsAfterText layout = true →
-      (specAll env ctx f).chain chain disc outer layout fs = .error [.invalidOperation] ∨
-        (specAll env ctx f).chain chain disc outer layout fs = .error [.templateNotFound] := by
+      (specAll env ctx f).chain chain disc outer ae layout fs = .error [.invalidOperation] ∨
+        (specAll env ctx f).chain chain disc outer ae layout fs = .error [.templateNotFound] := by
   intro d
   induction d with
   | zero =>
-    intro f chain disc outer layout fs hne hnd hlt hd hf hl
+    intro f chain disc outer ae layout fs hne hnd hlt hd hf hl
     obtain ⟨f', rfl⟩ : ∃ f', f = f' + 1 := ⟨f - 1, by omega⟩
     obtain ⟨pre, t, post, hs, hpre, hpost⟩ := extendsAfterText_split layout hl
-    obtain ⟨o, ho⟩ := specItems_texts env ctx (specAll env ctx f') (defs env chain) none disc false outer
+    obtain ⟨o, ho⟩ := specItems_texts env ctx (specAll env ctx f') (defs env chain) none disc false outer ae
       pre [] hpre fs
     simp only [List.append_nil, specItems] at ho
     simp only [specAll, specChain, hs, ho]
@@ -943,10 +994,10 @@ theorem cycle_detected_spec (env : Env) (ctx : Frame)
           · rw [List.getElem?_eq_none h] at hT; cases hT
         exact absurd (nodup_full env.length chain.tail hnd hlt (by omega) t hlt') hmem
   | succ d ih =>
-    intro f chain disc outer layout fs hne hnd hlt hd hf hl
+    intro f chain disc outer ae layout fs hne hnd hlt hd hf hl
     obtain ⟨f', rfl⟩ : ∃ f', f = f' + 1 := ⟨f - 1, by omega⟩
     obtain ⟨pre, t, post, hs, hpre, hpost⟩ := extendsAfterText_split layout hl
-    obtain ⟨o, ho⟩ := specItems_texts env ctx (specAll env ctx f') (defs env chain) none disc false outer
+    obtain ⟨o, ho⟩ := specItems_texts env ctx (specAll env ctx f') (defs env chain) none disc false outer ae
       pre [] hpre fs
     simp only [List.append_nil, specItems] at ho
     simp only [specAll, specChain, hs, ho]
@@ -956,7 +1007,7 @@ theorem cycle_detected_spec (env : Env) (ctx : Frame)
       cases hT : env[t]? with
       | none => simp
       | some T =>
-        simp only [specItems_post env ctx _ _ outer post hpost]
+        simp only [specItems_post env ctx _ _ outer ae post hpost]
         by_cases hx : hasExecExtends post = true
         · simp [hx]
         · have hx' : hasExecExtends post = false := by simpa using hx
@@ -969,7 +1020,7 @@ theorem cycle_detected_spec (env : Env) (ctx : Frame)
             cases chain with
             | nil => exact absurd rfl hne
             | cons c cs => rfl
-          have := ih f' (chain ++ [t]) disc outer T.layout fs (by simp)
+          have := ih f' (chain ++ [t]) disc outer ae T.layout fs (by simp)
             (by rw [htail]; exact List.nodup_append.2 ⟨hnd, by simp, by
               intro a ha b hb; simp at hb; subst hb; intro e; exact hmem (e ▸ ha)⟩)
             (by rw [htail]; intro x hx'; rcases List.mem_append.1 hx' with h | h
@@ -1033,19 +1084,19 @@ def IncErr (e : Err) : Prop :=
   ∃ j k, e = List.replicate j Kind.badInclude ++ [k] ∧ (k = Kind.invalidOperation ∨ k = Kind.recursion)
 
 theorem include_items_err (env : Env) (ctx : Frame) (cbs : SpecCbs)
-    (hcb : ∀ t, t < env.length → ∀ T, env[t]? = some T → ∀ disc outer fs,
-      ∃ e, cbs.chain [t] disc outer T.layout fs = .error e ∧ IncErr e)
-    (D : Nat → List (List Item)) (cur : Option (Nat × Nat)) (disc ext : Bool) (outer : Nat)
+    (hcb : ∀ t, t < env.length → ∀ T, env[t]? = some T → ∀ disc outer ae fs,
+      ∃ e, cbs.chain [t] disc outer ae T.layout fs = .error e ∧ IncErr e)
+    (D : Nat → List (List Item)) (cur : Option (Nat × Nat)) (disc ext : Bool) (outer : Nat) (ae : AE)
     (pre : List Item) (t : Nat) (ign : Bool) (more : List Item)
     (hpre : pre.all Item.isText = true) (ht : t < env.length) (fs : List Frame) :
-    ∃ e, specItems env ctx cbs D cur disc ext outer (pre ++ .incl [t] ign :: more) fs = .error e ∧ IncErr e := by
-  obtain ⟨o, ho⟩ := specItems_texts env ctx cbs D cur disc ext outer pre (.incl [t] ign :: more) hpre fs
+    ∃ e, specItems env ctx cbs D cur disc ext outer ae (pre ++ .incl [t] ign :: more) fs = .error e ∧ IncErr e := by
+  obtain ⟨o, ho⟩ := specItems_texts env ctx cbs D cur disc ext outer ae pre (.incl [t] ign :: more) hpre fs
   rw [ho]
   have hT : env[t]? = some env[t] := List.getElem?_eq_getElem ht
   simp only [specItems, specInclude, hT]
   by_cases hd : outer + INCLUDE_COST + fs.length > LIMIT
   · exact ⟨[.invalidOperation], by simp [hd], 0, .invalidOperation, rfl, Or.inl rfl⟩
-  · obtain ⟨e, he, j, k, hjk, hk⟩ := hcb t ht _ hT disc (outer + INCLUDE_COST) fs
+  · obtain ⟨e, he, j, k, hjk, hk⟩ := hcb t ht _ hT disc (outer + INCLUDE_COST) env[t].ae fs
     refine ⟨.badInclude :: e, by simp [hd, he], j + 1, k, ?_, hk⟩
     rw [hjk]; rfl
 
@@ -1053,31 +1104,31 @@ theorem include_items_err (env : Env) (ctx : Frame) (cbs : SpecCbs)
     is an error for every fuel, of the shape `BadInclude … BadInclude` around the limit error -/
 theorem include_cycle_spec (env : Env) (ctx : Frame)
     (hall : ∀ T ∈ env, includesAfterText env T.layout = true) :
-    ∀ f t, t < env.length → ∀ T, env[t]? = some T → ∀ disc outer fs,
-      ∃ e, (specAll env ctx f).chain [t] disc outer T.layout fs = .error e ∧ IncErr e := by
+    ∀ f t, t < env.length → ∀ T, env[t]? = some T → ∀ disc outer ae fs,
+      ∃ e, (specAll env ctx f).chain [t] disc outer ae T.layout fs = .error e ∧ IncErr e := by
   intro f
   induction f with
   | zero =>
-    intro t _ T _ disc outer fs
+    intro t _ T _ disc outer ae fs
     exact ⟨[.recursion], rfl, 0, .recursion, rfl, Or.inr rfl⟩
   | succ f ih =>
-    intro t ht T hT disc outer fs
+    intro t ht T hT disc outer ae fs
     obtain ⟨pre, t', ign, rest, hl, hpre, ht'⟩ := includesAfterText_split env T.layout (hall T (List.mem_of_getElem? hT))
     simp only [specAll, specChain]
     rw [hl]
     rcases split_after_texts pre (.incl [t'] ign) rest hpre rfl with hs | ⟨rest', tx, post, hs⟩
     · rw [hs]
-      exact include_items_err env ctx _ ih _ none disc false outer pre t' ign rest hpre ht' fs
+      exact include_items_err env ctx _ ih _ none disc false outer ae pre t' ign rest hpre ht' fs
     · rw [hs]
-      obtain ⟨e, he, hie⟩ := include_items_err env ctx _ ih (defs env [t]) none disc false outer pre t' ign rest' hpre ht' fs
+      obtain ⟨e, he, hie⟩ := include_items_err env ctx _ ih (defs env [t]) none disc false outer ae pre t' ign rest' hpre ht' fs
       exact ⟨e, by simp only [he], hie⟩
 
 /-! ### import of a template that extends another one -/
 
 theorem spec_simple_steps (env : Env) (ctx : Frame) (cbs : SpecCbs) (D : Nat → List (List Item))
-    (cur : Option (Nat × Nat)) (disc ext : Bool) (outer : Nat) (items : List Item)
+    (cur : Option (Nat × Nat)) (disc ext : Bool) (outer : Nat) (ae : AE) (items : List Item)
     (h : items.all Item.isAssign = true) (base : List Frame) (fr : Frame) :
-    ∃ o, specItems env ctx cbs D cur disc ext outer items (base ++ [fr]) =
+    ∃ o, specItems env ctx cbs D cur disc ext outer ae items (base ++ [fr]) =
       .ok (o, base ++ [assigns items fr]) := by
   induction items generalizing fr with
   | nil => exact ⟨[], rfl⟩
@@ -1124,20 +1175,20 @@ theorem spec_include_extending (env : Env) (ctx : Frame) (f : Nat) (disc : Bool)
       .ok (o, fs ++ [assigns P.layout (assigns post (assigns pre []))]) := by
   have hd' : ¬ (outer + INCLUDE_COST + (fs ++ [[]]).length > LIMIT) := by simp; omega
   obtain ⟨o1, h1⟩ := spec_simple_steps env ctx (specAll env ctx f.succ) (defs env [t]) none disc false
-    (outer + INCLUDE_COST) pre hpre fs []
+    (outer + INCLUDE_COST) T.ae pre hpre fs []
   obtain ⟨o2, h2⟩ := spec_simple_steps env ctx (specAll env ctx f.succ) (defs env ([t] ++ [p])) none true true
-    (outer + INCLUDE_COST) post hpost fs (assigns pre [])
+    (outer + INCLUDE_COST) T.ae post hpost fs (assigns pre [])
   obtain ⟨o3, h3⟩ := spec_simple_steps env ctx (specAll env ctx f) (defs env ([t] ++ [p])) none disc false
-    (outer + INCLUDE_COST) P.layout hpl fs (assigns post (assigns pre []))
+    (outer + INCLUDE_COST) T.ae P.layout hpl fs (assigns post (assigns pre []))
   refine ⟨o1 ++ o2 ++ o3, ?_⟩
   simp only [specInclude, hT, hd', if_false]
-  have hchain : (specAll env ctx (f + 2)).chain [t] disc (outer + INCLUDE_COST) T.layout (fs ++ [[]]) =
+  have hchain : (specAll env ctx (f + 2)).chain [t] disc (outer + INCLUDE_COST) T.ae T.layout (fs ++ [[]]) =
       .ok (o1 ++ o2 ++ o3, fs ++ [assigns P.layout (assigns post (assigns pre []))]) := by
-    have e1 : (specAll env ctx (f + 2)).chain [t] disc (outer + INCLUDE_COST) T.layout (fs ++ [[]]) =
-        specChain env ctx (specAll env ctx (f + 1)) [t] disc (outer + INCLUDE_COST) T.layout (fs ++ [[]]) := rfl
-    have e2 : (specAll env ctx (f + 1)).chain ([t] ++ [p]) disc (outer + INCLUDE_COST) P.layout
+    have e1 : (specAll env ctx (f + 2)).chain [t] disc (outer + INCLUDE_COST) T.ae T.layout (fs ++ [[]]) =
+        specChain env ctx (specAll env ctx (f + 1)) [t] disc (outer + INCLUDE_COST) T.ae T.layout (fs ++ [[]]) := rfl
+    have e2 : (specAll env ctx (f + 1)).chain ([t] ++ [p]) disc (outer + INCLUDE_COST) T.ae P.layout
           (fs ++ [assigns post (assigns pre [])]) =
-        specChain env ctx (specAll env ctx f) ([t] ++ [p]) disc (outer + INCLUDE_COST) P.layout
+        specChain env ctx (specAll env ctx f) ([t] ++ [p]) disc (outer + INCLUDE_COST) T.ae P.layout
           (fs ++ [assigns post (assigns pre [])]) := rfl
     rw [e1]
     simp only [specChain, hl, splitExtends_assign_some pre post p hpre, h1, List.tail_cons,
@@ -1148,14 +1199,14 @@ theorem spec_include_extending (env : Env) (ctx : Frame) (f : Nat) (disc : Bool)
   apply List.take_of_length_le; simp
 
 theorem importAs_extending_step (env : Env) (ctx : Frame) (henv : EnvOK env) (f : Nat)
-    (cur : Option Nat) (d0 e0 : Bool) (outer : Nat) (parent : Option (List Item))
+    (cur : Option Nat) (d0 e0 : Bool) (outer : Nat) (ae : AE) (parent : Option (List Item))
     (t p v : Nat) (T P : Template) (pre post : List Item)
     (hT : env[t]? = some T) (hP : env[p]? = some P) (hl : T.layout = pre ++ .extends true p :: post)
     (hpre : pre.all Item.isAssign = true) (hpost : post.all Item.isAssign = true)
     (hpl : P.layout.all Item.isAssign = true) (rest : List Item) (st : St)
     (hd : outer + INCLUDE_COST + (st.frames.length + 1) ≤ LIMIT) :
-    stepItems ⟨env, ctx, cur, d0, e0, outer⟩ (evalImpl env ctx (f + 2)) parent (.importAs t v :: rest) st =
-      stepItems ⟨env, ctx, cur, d0, e0, outer⟩ (evalImpl env ctx (f + 2)) parent rest
+    stepItems ⟨env, ctx, cur, d0, e0, outer, ae⟩ (evalImpl env ctx (f + 2)) parent (.importAs t v :: rest) st =
+      stepItems ⟨env, ctx, cur, d0, e0, outer, ae⟩ (evalImpl env ctx (f + 2)) parent rest
         { st with frames := (store st.frames v
             (Val.module (dedupKeys (assigns P.layout (assigns post (assigns pre [])))))) } := by
   obtain ⟨o, ho⟩ := spec_include_extending env ctx f false outer t p T P pre post hT hP hl hpre hpost hpl
